@@ -90,12 +90,14 @@ def r1_r2(ctx):
            f"scan needle (before XOR) is {needle_const!r}; serialisation of Setting(SETTING_PROTOCOL, TYPE_SHORT, length=2)+00 "
            f"from CS_DEF ({'big' if cd.endian == '>' else 'little'}-endian) is {ref!r}", needle_node or f.node)
     ps = None
-    for st, v in assignments_to(f.node, "PATCH_SIZE"):
-        try:
-            ps = const_eval(v)
-        except NotConst:
-            ps = src(v)
-    ctx.ob("R2", "TABLE", f, "PATCH_SIZE", ps == REF_PATCH_SIZE, f"block size read is {ps} (4096 required)", f.node)
+    fh_p = params(f.node)[0]
+    for c in fn_calls(f.node):
+        if isinstance(c.func, ast.Attribute) and c.func.attr == "read" and dotted(c.func.value) == fh_p and c.args:
+            try:
+                ps = const_eval(origin(f.node, c.args[0]))
+            except NotConst:
+                ps = src(c.args[0])
+    ctx.ob("R2", "TABLE", f, "block size", ps == REF_PATCH_SIZE, f"block size read is {ps} (4096 required)", f.node)
 
 
 # ---------------------------------------------------------------------------- R3
@@ -131,10 +133,15 @@ def r3(ctx):
     reads = [c for c in ast.walk(loop) if isinstance(c, ast.Call) and isinstance(c.func, ast.Attribute) and c.func.attr == "read"]
     seek_ok = len(seeks) == 1 and dotted(seeks[0].func.value) == fh_p and len(seeks[0].args) == 1 and dotted(seeks[0].args[0]) == pos
     ctx.ob("R3", "AGREE", f, "fh.seek(pos)", seek_ok, f"block read position: {[src(s) for s in seeks]} (must be exactly the scanner's loop variable {pos})", loop)
-    read_ok = len(reads) == 1 and dotted(reads[0].func.value) == fh_p and reads[0].args and dotted(reads[0].args[0]) == "PATCH_SIZE"
+    def _is_patch(e):
+        try:
+            return const_eval(origin(f.node, e)) == REF_PATCH_SIZE
+        except NotConst:
+            return False
+    read_ok = len(reads) == 1 and dotted(reads[0].func.value) == fh_p and reads[0].args and _is_patch(reads[0].args[0])
     if seek_ok and read_ok:
         read_ok = (seeks[0].lineno, seeks[0].col_offset) < (reads[0].lineno, reads[0].col_offset)
-    ctx.ob("R3", "AGREE", f, "fh.read(PATCH_SIZE)", bool(read_ok), f"block read: {[src(s) for s in reads]} after the seek", loop)
+    ctx.ob("R3", "AGREE", f, "fh.read(<patch size>)", bool(read_ok), f"block read: {[src(s) for s in reads]} after the seek", loop)
     ys = [y for y in ast.walk(loop) if isinstance(y, ast.Yield)]
     y_ok = False
     detail = "no yield in scan loop"
@@ -147,6 +154,15 @@ def r3(ctx):
         else:
             detail = f"yields {src(yv)} (must be xor(<block>, {key_p}))"
     ctx.ob("R3", "AGREE", f, "yield xor(data, xorkey)", bool(y_ok), detail, loop)
+    # every hit is yielded: no path through the scan loop body skips the yield (a filtered hit is a lost block)
+    cfg = ctx.cfg(f)
+    if ys:
+        ynode = cfg.node(fv.stmt_of(ys[0]))
+        every = cfg.all_paths_pass(cfg.edge_node(loop, "iter"), cfg.node(loop), [ynode]) and not cfg.reaches(cfg.edge_node(loop, "iter"), cfg.node(loop), avoiding=[ynode])
+        exits = [s2 for s2 in ast.walk(loop) if isinstance(s2, (ast.Break, ast.Return, ast.Continue))]
+        ctx.ob("R3", "DOM", f, "every hit yielded", every and not exits,
+               "each needle hit leads to exactly one yielded block (no conditional skip, break or return in the scan loop)" if every and not exits else
+               "a needle hit can be skipped: " + " -> ".join(cfg.witness_path(cfg.edge_node(loop, "iter"), cfg.node(loop), avoiding=[ynode])[-5:]), loop)
 
 
 # ---------------------------------------------------------------------------- R4 / R5
@@ -200,19 +216,32 @@ def r4_r5(ctx):
         ctx.ob("R4", "AGREE", f, src(y), ok, detail, y)
     ctx.rep.count("extraction_yield_sites", len(y_enc) + len(y_raw) + len(y_rec), floor=3)
     # R5: found flag set before each yield; later phases gated by `not found`
+    # the flag: the one local that is assigned the constant True inside the candidate loops
+    flags = set()
+    for y in y_enc + y_raw:
+        lp = fv.enclosing(y, (ast.For,))
+        while lp is not None:
+            for s2 in ast.walk(lp):
+                if isinstance(s2, ast.Assign) and is_const(s2.value, True) and dotted(s2.targets[0]):
+                    flags.add(dotted(s2.targets[0]))
+            lp = fv.enclosing(lp, (ast.For,))
+    flag = sorted(flags)[0] if len(flags) == 1 else "found"
+    inits = [v for st, v in assignments_to(f.node, flag) if is_const(v, False)]
+    ctx.ob("R5", "DOM", f, "found flag", len(flags) == 1 and bool(inits), f"one boolean flag ({sorted(flags)}) records that a candidate was found; it starts as False={bool(inits)}")
+
     def not_found(test):
-        if isinstance(test, ast.UnaryOp) and isinstance(test.op, ast.Not) and dotted(test.operand) == "found":
+        if isinstance(test, ast.UnaryOp) and isinstance(test.op, ast.Not) and dotted(test.operand) == flag:
             return True
-        if dotted(test) == "found":
+        if dotted(test) == flag:
             return False
         return None
 
     for y in y_enc + y_raw:
         st = fv.stmt_of(y)
         loop = fv.enclosing(y, (ast.For,))
-        sets = [s for s in ast.walk(loop) if isinstance(s, ast.Assign) and dotted(s.targets[0]) == "found" and is_const(s.value, True)] if loop else []
+        sets = [s for s in ast.walk(loop) if isinstance(s, ast.Assign) and dotted(s.targets[0]) == flag and is_const(s.value, True)] if loop else []
         ok = any(cfg.dominates(cfg.node(s), cfg.node(st)) for s in sets)
-        ctx.ob("R5", "DOM", f, "found=True before " + src(y), ok, "`found = True` dominates the yield inside its loop" if ok else "a candidate can be yielded without recording found=True (later phases would run too)", y)
+        ctx.ob("R5", "DOM", f, "found=True before yield [" + ("xorencoded" if y in y_enc else "raw") + "]", ok, "`found = True` dominates the yield inside its loop" if ok else "a candidate can be yielded without recording found=True (later phases would run too)", y)
     for y in y_raw:
         ok = guarded_by(ctx, f, y, not_found)
         ctx.ob("R5", "DOM", f, "raw search gated", ok, "raw-file search is dominated by the `not found` edge" if ok else "raw-file search runs even when the XorEncoded search found a block", y)
@@ -220,7 +249,7 @@ def r4_r5(ctx):
             back = cfg.reaches(cfg.node(fv.stmt_of(y)), cfg.node(fv.stmt_of(ye)))
             ctx.ob("R5", "DOM", f, "phase order enc<raw", not back, "XorEncoded search precedes the raw search" if not back else "raw search can precede the XorEncoded search", y)
     for y in y_rec:
-        ok = guarded_by(ctx, f, y, not_found) and guarded_by(ctx, f, y, lambda t: True if dotted(t) == "all_xor_keys" else None)
+        ok = guarded_by(ctx, f, y, not_found) and guarded_by(ctx, f, y, lambda t: True if dotted(t) == ps[3] else None)
         ctx.ob("R5", "DOM", f, "all-keys retry gated", ok, "retry is dominated by `not found and all_xor_keys`" if ok else "all-keys retry is not gated by `not found and all_xor_keys`", y)
         for yo in y_enc + y_raw:
             back = cfg.reaches(cfg.node(fv.stmt_of(y)), cfg.node(fv.stmt_of(yo)))
